@@ -2,7 +2,7 @@
 from . import unit_encode
 
 ID = 'C12'
-BUDGET_S = {'quick': 150, 'thorough': 1800}
+BUDGET_S = {'quick': 150, 'thorough': 3600}
 SHAPE_WALL_S = {'quick': 60, 'thorough': 300}
 FAMILY = ('UNIT: field widths 1..64 with symbolic values (accepted <=> in signed-or-unsigned range); PIPE: generated ISA '
           'definitions with min/max (numeric_bytecode, relative_address incl. offset from instruction end), numeric '
